@@ -8,6 +8,13 @@ def hook_commits():
     return [l.split()[0] for l in out.splitlines() if "verif hook" in l]
 
 CLAIMED = {
+ "C14": dict(
+   level="exploration",
+   text="One real node (consensus processor with timer-driven bundling and the real mempool): 4..40/120 seeded operations mixing transaction arrivals (valid, two-input, conflicting, duplicate), staging and bundling ticks, peer blocks that confirm / partially spend / conflict with pooled transactions, invalid peer blocks and a peer fork that reorganises away the last block. After every operation a reference view of the pool is checked: no shared inputs, every pooled transaction valid against the ledger, reservations subset of pooled inputs, routing-work cache exact, bundling all-or-nothing, and an active probe that an unreserved unspent output can be spent by a fresh transaction.",
+   design="§6 C14",
+   note="Trusted: reference ledger, universe builder for peer blocks; the probe transaction is removed again after the probe.",
+   technique="deterministic simulation: seeded interleavings of pool / bundling / peer-block / reorg operations + reference pool model with active spendability probe"),
+
  "C07": dict(
    level="exploration",
    text="Real producer node (genesis from an issuance file, timer-driven bundling through the real mempool incl. staking transaction, golden tickets from the real MiningThread with seeded nonces) plus 1-2 independent observer nodes that learn of blocks only through announce -> fetch -> verify -> add, and a scripted wallet submitting payments (random fees, routed, conflicting pairs, dust) through the producer's routing/verification path; genesis period 3..100, heartbeat 0.2..5 s, three issuance scales; producer clock skew, observer crash+restart. Oracle: no panics, every bundled block becomes the producer's tip, every connected observer is on the producer's tip at quiescence.",
